@@ -1414,3 +1414,12 @@ V("C10-silent-path-local","C10",FT+"fstree.go","""	p := t.treePath(addr)
 	return t.getObjectBytesByPath(addr.Object(), p)""","""	objPath := t.treePath(addr)
 	id := addr.Object()
 	return t.getObjectBytesByPath(id, objPath)""",expect="silent")
+
+# ---- rules after the third seeding round
+V("C19-degraded-listing-error-is-done","C19","pkg/local_object_storage/engine/evacuate.go","""				if errors.Is(err, meta.ErrEndOfListing) {
+					continue mainLoop
+				}""","""				if errors.Is(err, meta.ErrEndOfListing) || errors.Is(err, shard.ErrDegradedMode) {
+					continue mainLoop
+				}""",rule="C19.R7")
+V("C19-listing-ignores-live-lock","C19","pkg/local_object_storage/metabase/list.go","""		if inGarbage(mCursor, obj) != statusAvailable && !objectLocked(currEpoch, mCursor, obj) {""","""		if inGarbage(mCursor, obj) != statusAvailable {
+			_ = currEpoch""",rule="C19.R6")
